@@ -532,6 +532,21 @@ pub fn record(args: &Args) -> i32 {
     let threads = args.num("threads", 8) as usize;
     let mut rng = Rng::new(seed ^ 0xD3F1);
     let mut streams = driver_streams(&mut rng, n, maxlen, mutants);
+    if let Some(dir) = args.get("corpus") {
+        if let Ok(rd) = std::fs::read_dir(dir) {
+            let mut files: Vec<_> = rd.filter_map(|e| e.ok()).map(|e| e.path()).filter(|p| p.extension().map(|e| e == "hex").unwrap_or(false)).collect();
+            files.sort();
+            for p in files {
+                if let Ok(txt) = std::fs::read_to_string(&p) {
+                    for (i, l) in txt.lines().enumerate() {
+                        if !l.trim().is_empty() {
+                            streams.push(Driven { label: format!("corpus/{}#{}", p.file_name().unwrap().to_string_lossy(), i), bytes: unhex(l.trim()) });
+                        }
+                    }
+                }
+            }
+        }
+    }
     let sw = args.num("sweeps", 0) as usize;
     if sw > 0 {
         for (label, bytes) in gen::sweep_streams(&mut rng, sw, args.num("window", 40) as usize) {
